@@ -66,7 +66,7 @@ def run_phase(ctx, res, prop, n_quick=36, n_thorough=400):
         while given and part < 80:
             ev, inf = procmgr.run_lifetime(ctx.scratch, "%s_all_%s_%d" % (prop, plat, part), True, ["client"] * len(given),
                                            False, rng, start_env=(dict(procmgr.GOOD_ENV), "f"), plat=plat,
-                                           client_lines=list(given), client_timeout=12)
+                                           client_lines=list(given), client_timeout=25)
             if inf.get("hung_at") is not None:
                 hung_classes.append(inf["labels"][inf["hung_at"]])
             inf["labels"] = inf["labels"][:3] + ["... %d lines" % len(given)] + \
